@@ -62,9 +62,22 @@ def strategy(shard):
 
     @st.composite
     def pilot(draw):
-        if draw(st.integers(0, 5)) == 0:
+        r = draw(st.integers(0, 5))
+        if r == 0:
             return draw(boundary_pilot())
         cfg = draw(_finite_cfg())
+        if r == 1:
+            # front-loaded pilot: its large values come first, its mean is at most t - the history crosses early all the same
+            N, u, t = cfg["N"], cfg["u"], cfg["t"]
+            a = draw(st.integers(3, 9))
+            b = draw(st.integers(a, 2 * a + 2))
+            x = ([u] * a + [0.0] * b)[: N - 1]
+            if len(set(x)) > 1:
+                c = {"mode": mode, "cfg": cfg, "x": [float(v) for v in x], "alpha": draw(st.sampled_from(ALPHAS))}
+                if mode == "prefix":
+                    c.update(extra=draw(st.integers(0, 3)), reps=draw(st.integers(1, 5)), quantile=draw(st.floats(0.01, 0.99)),
+                             seed=draw(st.integers(0, 2 ** 32 - 1)))
+                return c
         N, u, t = cfg["N"], cfg["u"], cfg["t"]
         hi = st.floats(min(u, t * 1.05), u)
         val = st.one_of(st.sampled_from([u, u, 0.0, t, u / 2, (u + t) / 2]), hi, st.floats(0.0, u))
